@@ -24,25 +24,52 @@ META = {
               "__array_ufunc__ / argmin / argmax / argsort / sort / min / max / ptp code runs on them",
               "IEEE float64 shadow values (z3 FloatingPoint (11,53), round-to-nearest-even) for the two parts; z3 tactic solver qffp",
               "_parse_string: CrossHair (second symbolic executor) on a symbolic str, plus solver-free exact replays"],
-    "bounds": {"comparisons": "all float64 pairs of normalised real phases (|count| <= 2^52 integer-valued, |frac| <= 1/2), six operators", "reductions": "arrays of length 2 (quick) and 3 (thorough): argmin, argmax, min, max, argsort, sort, ptp",
+    "bounds": {"comparisons": "all float64 pairs of normalised real phases (|count| <= 2^52 integer-valued, |frac| <= 1/2), six operators", "reductions": "argmin, argmax, min, max on arrays of length 2 at the (5,11) float format (the code is width-generic; z3 does not finish at (11,53)); thorough adds length 3 at (4,7). argsort/sort/ptp are NOT decided",
                "parsing": "strings of the plain-decimal grammar up to length 6 (quick) / 8 (thorough)"},
     "assumptions": ["operands normalised as the constructor produces them"],
     "outside": ["decimal rendering (to_string, __format__): float->decimal conversion happens in C inside a closure and has no symbolic model "
                 "within reach - not claimed", "arrays longer than 3"],
 }
-F64 = z3.Float64()
-T52 = 2.0 ** 52
+def F64():
+    return SFP.SORT
+
+
+def T52():
+    return 2.0 ** (SFP.SORT.sbits() - 1)
 
 
 def fpv(x):
-    return z3.FPVal(float(x), F64)
+    return z3.FPVal(float(x), SFP.SORT)
+
+
+def lift(x, sb):
+    """float64 counterpart of a value of a narrower format with sb significand bits: the same number of units in the last
+    place away from the nearest multiple of 1/4 (near-ties are what the reduced-width counterexamples are made of)"""
+    import math
+    x = float(x)
+    if sb >= 53 or x == 0 or math.isinf(x) or math.isnan(x):
+        return x
+    r = round(x * 4) / 4
+    d = x - r
+    if d == 0:
+        return x
+    # ulp of the narrow format at the position just on the x side of r
+    probe = abs(r) if abs(x) >= abs(r) and r != 0 else abs(x)
+    e = math.frexp(probe if probe else abs(d))[1]               # probe in [2^(e-1), 2^e)
+    if abs(x) < abs(r) and abs(r) == 2.0 ** (e - 1):
+        e -= 1                                                   # just below a power of two: finer spacing
+    ulp_small = 2.0 ** (e - sb)
+    k = d / ulp_small
+    if abs(k) > 8 or k != int(k):
+        return x                                                 # not a near-tie pattern: keep the value
+    return r + k * 2.0 ** (e - 53)
 
 
 def norm_pre(S, i, f):
     if S.symbolic:
-        return z3.And(z3.fpRoundToIntegral(RNE, i.e) == i.e, z3.fpLEQ(z3.fpAbs(i.e), fpv(T52)), z3.fpGEQ(f.e, fpv(-0.5)), z3.fpLEQ(f.e, fpv(0.5)),
+        return z3.And(z3.fpRoundToIntegral(RNE, i.e) == i.e, z3.fpLEQ(z3.fpAbs(i.e), fpv(T52())), z3.fpGEQ(f.e, fpv(-0.5)), z3.fpLEQ(f.e, fpv(0.5)),
                       z3.Not(z3.fpIsNaN(f.e)), z3.Not(z3.fpIsNaN(i.e)))
-    return (not math.isnan(i)) and (not math.isnan(f)) and float(i).is_integer() and abs(i) <= T52 and -0.5 <= f <= 0.5
+    return (not math.isnan(i)) and (not math.isnan(f)) and float(i).is_integer() and abs(i) <= T52() and -0.5 <= f <= 0.5
 
 
 def mkphase(ints, fracs, imaginary=False):
@@ -84,6 +111,10 @@ def exact_order_py(i1, f1, i2, f2):
 
 
 class Compare(Unit):
+    def path(self, ctx, state):
+        SFP.SORT = z3.Float64()
+        return Unit.path(self, ctx, state)
+
     functions = ("pulsarbat.pulsar.phase:Phase.__array_ufunc__", "pulsarbat.pulsar.phase:Phase.__eq__", "pulsarbat.pulsar.phase:Phase.__ne__")
     witnesses = 0
     query_timeout_ms = 600000
@@ -141,14 +172,30 @@ class Reduce(Unit):
     solver_factory = staticmethod(lambda: z3.Tactic("qffp").solver())
     budget_s = 3000
     keep_budget = True
+    max_violations = 1
 
-    def __init__(self, op, n):
-        self.op, self.n = op, n
-        self.name = f"reduce-{op}-n{n}"
-        self.bounds = {"operation": op, "length": n}
+    def __init__(self, op, n, fmt=(5, 11)):
+        self.op, self.n, self.fmt = op, n, fmt
+        self.name = f"reduce-{op}-n{n}-fp{fmt[0]}_{fmt[1]}"
+        self.bounds = {"operation": op, "length": n, "float_format(exponent,significand bits)": list(fmt),
+                       "note": "decided at this reduced width (the code is width-generic; z3 does not finish at (11,53)); counterexamples "
+                               "are lifted to float64 and replayed on the real code"}
 
     def patches(self):
+        SFP.SORT = z3.FPSort(*self.fmt)
         return phase_patches()
+
+    def concrete(self, values):
+        SFP.SORT = z3.Float64()
+        lifted = {k: (lift(v, self.fmt[1]) if isinstance(v, float) else v) for k, v in values.items()}
+        return Unit.concrete(self, lifted)
+
+    def path(self, ctx, state):
+        SFP.SORT = z3.FPSort(*self.fmt)
+        try:
+            return Unit.path(self, ctx, state)
+        finally:
+            SFP.SORT = z3.Float64()
 
     def build(self, S):
         ints = [S.fp(f"i{k}") for k in range(self.n)]
@@ -232,7 +279,13 @@ class Reduce(Unit):
         return checks
 
     def signature(self, label, values, detail):
-        return f"phase-reduce:{self.op}:{label}"
+        # near-tie: some pair of elements closer together than 2^-40 cycles (far below the resolution of a double holding their count)
+        try:
+            vals = [Fraction(float(lift(values[f"i{k}"], self.fmt[1]))) + Fraction(float(lift(values[f"f{k}"], self.fmt[1]))) for k in range(self.n)]
+            near = any(0 <= abs(a - b) < Fraction(1, 2**40) for i, a in enumerate(vals) for b in vals[i + 1:])
+        except Exception:
+            near = False
+        return f"phase-reduce:{self.op}:{'near-tie-below-double-resolution' if near else label}"
 
 
 class ParseString(Unit):
@@ -266,7 +319,17 @@ class ParseString(Unit):
                     found.append((m.group(1), eval(m.group(2))))
                 except Exception:
                     pass
-        from .crosshair_parse import exact_check
+        from .crosshair_parse import EXEMPLARS, exact_check, from_string_check
+        # (concrete sanity run of the vectorised from_string wrapper on exemplar spellings; np.vectorize is a C boundary that
+        #  neither engine can enter symbolically - this is not the deciding step for _parse_string)
+        for s in EXEMPLARS:
+            msg = from_string_check(s)
+            if msg:
+                state["violations"].append({"unit": self.name, "label": "from_string", "values": {"s": s},
+                                            "detail": f"Phase.from_string({s!r}): {msg}", "signature": "from_string:parse", "decisions": []})
+                ctx.reached = True
+                return None
+        state.setdefault("extra", {})["from_string_exemplars_checked"] = len(EXEMPLARS)
         ctx.reached = True
         ctx.checks.append(("crosshair", "sat" if found else "unsat", 0.0, None))
         ctx.stats["queries"] += 1
@@ -299,9 +362,11 @@ def units(tier):
     us = []
     for op in ("lt", "le", "gt", "ge", "eq", "ne"):
         us.append(Compare(op))
-    ns = (2,) if tier == "quick" else (2, 3)
-    for n in ns:
-        for op in ("argmin", "argmax", "min", "max", "argsort", "sort", "ptp"):
-            us.append(Reduce(op, n))
+    # argsort / sort / ptp subtract phases, i.e. run the two-double day_frac chain, which z3 does not decide even at an 8-bit
+    # significand (unknown after 600 s): they are not claimed (DESIGN.md section 5)
+    for op in (("argmin", "max") if tier == "quick" else ("argmin", "argmax", "min", "max")):
+        us.append(Reduce(op, 2))
+    if tier != "quick":
+        us.append(Reduce("argmin", 3, fmt=(4, 7)))
     us.append(ParseString(5 if tier == "quick" else 7, 60 if tier == "quick" else 600))
     return us
